@@ -1046,6 +1046,18 @@ def build_unit(template_path, out_path, report_path, defines=None):
         elif kind == 'struct':
             s0, e0 = find_struct(src, name)
             txt = src.text[s0:e0]
+        elif kind == 'methods':
+            # the set of methods (and trait impls) of a type: a new method such as an `nth` override next to a verified
+            # `next` changes what callers get without touching any verified text
+            blocks = impl_blocks(src, name)
+            if not blocks:
+                raise LostAnchor('pin methods %s: no impl block in %s' % (name, relfile))
+            parts2 = []
+            for (o2, c2, hdr) in blocks:
+                fns = [src.toks[i + 1].text for i in range(o2, c2) if src.toks[i].kind == 'ident' and src.toks[i].text == 'fn'
+                       and src.toks[i].depth == src.toks[o2].depth + 1 and src.toks[i + 1].kind == 'ident']
+                parts2.append('impl ' + ' '.join(h.text for h in hdr) + ' { ' + ' '.join('fn ' + f for f in fns) + ' }')
+            txt = ' ; '.join(parts2)
         elif kind == 'const':
             s0, e0 = find_simple_item(src, 'const', name)
             txt = src.text[s0:e0]
